@@ -1,20 +1,11 @@
 import KsiVerif.Util.DriverMain
-import KsiVerif.Model.VerifyPolicy
-import KsiVerif.Model.Sha
-import KsiVerif.Gen.Policies
+import KsiVerif.Util.VerifyDrv
 /-! Model driver for C01 / C02 — protocol in harness/exec_c01.c. -/
-open KsiVerif KsiVerif.Template KsiVerif.Verify KsiVerif.Policy
-
-def Hreal : HashChain.HashFn := fun algo d => (Sha.hashById algo).map (· d)
-def cfg : Cfg := { derOK := fun _ => false }
-
-def resNum : Res → Nat
-  | .ok => 0 | .na => 1 | .fail => 2
+open KsiVerif KsiVerif.Template KsiVerif.Verify KsiVerif.Policy KsiVerif.VerifyDrv
 
 def policyOf (n : String) : Option (Option (List Rule)) :=
   if n == "internal" then some Gen.policy_internal else none
 
-def sixNames : List String := ["internal", "calendar", "key", "pubfile", "userpub", "general"]
 
 /-- `KSI_SignatureVerifier_verify(policy, ctx, &result)` followed by `KSI_Signature_verifyWithPolicy` -/
 def runVerify (pol : Option (List Rule)) (s : Sig) (x : VCtx) : String :=
@@ -47,12 +38,6 @@ def expect (label : String) (out : String) : Option String :=
     match want with
     | some ws => if ws.contains v then none else some s!"{label}-reported-as-{v}"
     | none => none
-
-def verdictStr (x : VCtx) (v : Verdict) : String × String :=
-  let a := apiStatus x v
-  match v.status, v.final with
-  | 0, some (r, e) => (s!"V0:{resNum r}:{e}", s!"A{a}")
-  | st, _ => (s!"V{st}:-:-", s!"A{a}")
 
 /-- C02 oracle: what must come out under a verifying policy for the generator's label -/
 def expect2 (label : String) (v a g : String) : Option String :=
